@@ -17,7 +17,8 @@ META = {
             'assignment of a pool state to each host from {no pool, pool shut down, connection busy (write buffer full), all stream '
             'ids in use, connection closed under the pool, healthy-then-retry-next-host, healthy}: frames must reach exactly the '
             'hosts the reference walk visits, in order, none twice; NoHostAvailable only when the plan is exhausted, with '
-            'exactly the visited hosts as keys and the documented reason class per host.',
+            'exactly the visited hosts as keys and the documented reason class per host.  Every case is run twice: on fresh '
+            'connections and from the state in which the next stream id a connection hands out is 0.',
     'note': 'Pool states are established through the pool/connection API after a normal connect (remove_pool, shutdown, '
             '_socket_writable=False as reactors do under back-pressure, in_flight saturated, connection.close()).',
     'design_ref': 'C17',
@@ -41,9 +42,9 @@ def reference(plan, states):
     return frames, errors, 'NoHostAvailable'
 
 
-def play(n, plan, states, target):
+def play(n, plan, states, target, id0=False):
     addrs = ['10.0.0.%d' % (i + 1) for i in range(n)]
-    st = reqworld.ReqWorld(dict(hosts=n, order=list(plan), timeout=100.0))
+    st = reqworld.ReqWorld(dict(hosts=n, order=list(plan), timeout=100.0, id0=id0))
     try:
         by = dict((h.endpoint.address, h) for h in st.cluster.metadata.all_hosts())
         for a in addrs:
@@ -96,17 +97,19 @@ def play(n, plan, states, target):
 
 def run_chunk(cases):
     part = Part()
-    for n, plan, svec, target in cases:
+    for case_ in cases:
+        n, plan, svec, target = case_[:4]
+        id0 = bool(case_[4]) if len(case_) > 4 else False
         addrs = ['10.0.0.%d' % (i + 1) for i in range(n)]
         states = dict(zip(addrs, svec))
         eff_plan = [target] if target else list(plan)
         ref = reference(eff_plan, states)
         part.count('evaluations')
-        got = play(n, plan, states, target)
-        case = {'n': n, 'plan': list(plan), 'states': list(svec), 'target': target}
+        got = play(n, plan, states, target, id0)
+        case = {'n': n, 'plan': list(plan), 'states': list(svec), 'target': target, 'id0': id0}
         part.outcome((got[2], len(got[0])))
         if len(set(svec)) > 1:
-            part.mark_nontrivial(repr((plan, svec, target)))
+            part.mark_nontrivial(repr((plan, svec, target, id0)))
         part.sample(dict(case, frames=got[0], outcome=got[2], errors=got[1]), limit=2)
         if got[0] != ref[0]:
             kind = 'twice' if len(set(got[0])) != len(got[0]) else 'order'
@@ -137,6 +140,8 @@ def cases(quick):
         for plan in (tuple(addrs), tuple(reversed(addrs))):
             for svec in itertools.product(['missing', 'busy', 'retry_next', 'healthy'], repeat=4):
                 out.append((4, plan, svec, None))
+    # every case again from the state a connection is in after ~300 requests: the next stream id handed out is 0
+    out += [c + (True,) for c in out]
     return out
 
 
@@ -152,7 +157,7 @@ def run(ctx):
 
 
 def replay(ctx, data):
-    part = run_chunk([(data['n'], tuple(data['plan']), tuple(data['states']), data['target'])])
+    part = run_chunk([(data['n'], tuple(data['plan']), tuple(data['states']), data['target'], data.get('id0', False))])
     for fp, what, _ in part.violations:
         print(fp, '::', what)
     return bool(part.violations)
